@@ -12,9 +12,10 @@ env = dict(os.environ, CARGO_TARGET_DIR=os.environ.get('CONFIRM_TARGET', '/var/t
 def sh(cmd, **kw):
     return subprocess.run(cmd, shell=True, cwd=kw.pop('cwd', wt), env=env, capture_output=True, text=True, **kw)
 subprocess.run(['git', '-C', '/repo', 'worktree', 'remove', '--force', wt], capture_output=True)
-r = subprocess.run(['git', '-C', '/repo', 'worktree', 'add', '--detach', wt, 'HEAD'], capture_output=True, text=True)
+BASE = os.environ.get('CONFIRM_BASE', 'HEAD')
+r = subprocess.run(['git', '-C', '/repo', 'worktree', 'add', '--detach', wt, BASE], capture_output=True, text=True)
 assert r.returncode == 0, r.stderr
-out = dict(seed=seed, base=subprocess.run(['git', '-C', '/repo', 'rev-parse', '--short', 'HEAD'], capture_output=True, text=True).stdout.strip())
+out = dict(seed=seed, base=subprocess.run(['git', '-C', '/repo', 'rev-parse', '--short', os.environ.get('CONFIRM_BASE', 'HEAD')], capture_output=True, text=True).stdout.strip())
 try:
     r = sh('git apply --check %s/patch.diff && git apply %s/patch.diff' % (seed, seed))
     out['patch_applies'] = r.returncode == 0
